@@ -79,7 +79,7 @@ def tolerance(v: np.ndarray) -> float:
 # ------------------------------------------------------------------ drawing games
 def draw_sa(sim: Sim, n: int) -> tuple[np.ndarray, bool]:
     """A superadditive game; returns (values, exact)."""
-    mode = sim.pick(["int", "dyadic", "float", "intwide"], "sa-mode")
+    mode = sim.pick(["int", "dyadic", "float", "intwide", "offset", "huge", "fine"], "sa-mode")
     rng = sim.np_rng("sa-values")
     if mode == "int":
         base = rng.integers(-8, 9, 2 ** n).astype(np.float64)
@@ -87,6 +87,17 @@ def draw_sa(sim: Sim, n: int) -> tuple[np.ndarray, bool]:
         base = rng.integers(-1000, 1001, 2 ** n).astype(np.float64)
     elif mode == "dyadic":
         base = rng.integers(-64, 65, 2 ** n).astype(np.float64) / 16.0
+    elif mode == "offset":
+        # values of large magnitude with unit-sized structure: a large additive part plus small integer synergies
+        m = float(rng.choice([1e4, 1e6, 1e8])) * (1 if rng.random() < 0.7 else -1)
+        sizes = np.array([popcount(s) for s in range(2 ** n)], dtype=np.float64)
+        base = m * sizes + rng.integers(-3, 4, 2 ** n).astype(np.float64)
+    elif mode == "huge":
+        # exactly representable integers far beyond 2**31 (all sums stay below 2**53)
+        base = rng.integers(-8, 9, 2 ** n).astype(np.float64) * float(10 ** int(rng.integers(9, 13)))
+    elif mode == "fine":
+        # dyadic values with very fine resolution next to values of ordinary size
+        base = rng.integers(-8, 9, 2 ** n).astype(np.float64) + rng.integers(-3, 4, 2 ** n).astype(np.float64) * 2.0 ** -20
     else:
         base = rng.normal(0.0, 10.0 ** rng.integers(-2, 4), 2 ** n)
     v = sa_closure(base, n)
